@@ -96,6 +96,89 @@ def _guards_of(fn_node, target_node):
     return out
 
 
+def _guards_full(fn_node, target_node):
+    """_guards_of plus the negated tests of earlier guard clauses in the same blocks (`if c: continue/return/raise`
+    before the statement holding target_node contributes `not (c)`)."""
+    def term(stmts):
+        return bool(stmts) and isinstance(stmts[-1], (ast.Continue, ast.Return, ast.Raise, ast.Break))
+
+    def contains(node):
+        return any(x is target_node for x in ast.walk(node))
+
+    def in_block(stmts, conds):
+        acc = list(conds)
+        for st in stmts:
+            if contains(st):
+                return in_stmt(st, acc)
+            if isinstance(st, ast.If):
+                if term(st.body) and not st.orelse:
+                    acc.append("not (" + ast.unparse(st.test) + ")")
+                elif st.orelse and term(st.orelse) and not term(st.body):
+                    acc.append(ast.unparse(st.test))
+        return None
+
+    def in_stmt(st, conds):
+        if st is target_node:
+            return conds
+        if isinstance(st, (ast.FunctionDef, ast.Lambda)) and st is not fn_node:
+            return None
+        if isinstance(st, ast.If):
+            if any(contains(x) for x in st.body):
+                return in_block(st.body, conds + [ast.unparse(st.test)])
+            if any(contains(x) for x in st.orelse):
+                return in_block(st.orelse, conds + ["not (" + ast.unparse(st.test) + ")"])
+            return conds          # inside the test expression
+        for field in ("body", "orelse", "finalbody"):
+            blk = getattr(st, field, None)
+            if isinstance(blk, list) and blk and isinstance(blk[0], ast.stmt) and any(contains(x) for x in blk):
+                return in_block(blk, conds)
+        for h in getattr(st, "handlers", []) or []:
+            if any(contains(x) for x in h.body):
+                return in_block(h.body, conds)
+        # an expression inside a simple statement: IfExp polarity as in _guards_of
+        extra = [g for g in _guards_of(st, target_node)] if not isinstance(st, (ast.FunctionDef,)) else []
+        return conds + extra
+    r = in_block(fn_node.body, []) if hasattr(fn_node, "body") and isinstance(fn_node.body, list) else None
+    return r if r is not None else _guards_of(fn_node, target_node)
+
+
+def implies_atom(conds, is_target):
+    """Do the conditions (sources, conjoined) imply the target atom?  is_target(node) -> True/False polarity for a leaf
+    that states the target / its negation, None for any other leaf (a free boolean)."""
+    import itertools
+    exprs = [ast.parse(c, mode="eval").body for c in conds]
+    leaves = {}
+
+    def collect(n):
+        if isinstance(n, ast.BoolOp):
+            for v in n.values:
+                collect(v)
+        elif isinstance(n, ast.UnaryOp) and isinstance(n.op, ast.Not):
+            collect(n.operand)
+        else:
+            pol = is_target(n)
+            leaves[ast.unparse(n)] = ("T", pol) if pol is not None else (ast.unparse(n), True)
+
+    def ev(n, env):
+        if isinstance(n, ast.BoolOp):
+            vs = [ev(v, env) for v in n.values]
+            return all(vs) if isinstance(n.op, ast.And) else any(vs)
+        if isinstance(n, ast.UnaryOp) and isinstance(n.op, ast.Not):
+            return not ev(n.operand, env)
+        name, pol = leaves[ast.unparse(n)]
+        return env[name] if pol else not env[name]
+    for e in exprs:
+        collect(e)
+    names = sorted({v[0] for v in leaves.values()} | {"T"})
+    if len(names) > 12:
+        return False
+    for vals in itertools.product([False, True], repeat=len(names)):
+        env = dict(zip(names, vals))
+        if all(ev(e, env) for e in exprs) and not env["T"]:
+            return False
+    return True
+
+
 def _check_main(ctx, rep: Report):
     rep.extra["exhaustive"] = True
     # ---- REG
